@@ -72,6 +72,8 @@ type Sched struct {
 	siteOn func(node, site string) bool
 	// hold lists goroutine names that Settle must not release.
 	hold map[string]bool
+	// extra sites enabled for this run.
+	extra map[string]bool
 	// notify wakes the driver when something parked.
 	notify chan struct{}
 	// pointFn receives VerifPoint callbacks.
@@ -82,8 +84,41 @@ type Sched struct {
 	steps    atomic.Int64   // progress counter for the watchdog
 }
 
+// alwaysOn lists the sites at which goroutines woken by a timer (or freshly
+// spawned) park in every run, so that the order of same-instant wake-ups is a
+// recorded decision and never left to the Go scheduler.
+var alwaysOn = map[string]bool{
+	"migrate.wake": true, "impact.wake": true, "week.wake": true,
+	"send.wake": true, "send.tick": true, "csync.wake": true, "csync.start": true, "csync.resend": true,
+}
+
+// EnableSites makes further sites park in this run.
+func (s *Sched) EnableSites(sites ...string) {
+	s.mu.Lock()
+	for _, x := range sites {
+		s.extra[x] = true
+	}
+	s.mu.Unlock()
+}
+
+// DisableSites turns extra sites off again.
+func (s *Sched) DisableSites(sites ...string) {
+	s.mu.Lock()
+	for _, x := range sites {
+		delete(s.extra, x)
+	}
+	s.mu.Unlock()
+}
+
 func newSched() *Sched {
+	s := newSched0()
+	s.siteOn = func(node, site string) bool { return alwaysOn[site] || s.extra[site] }
+	return s
+}
+
+func newSched0() *Sched {
 	return &Sched{
+		extra:       make(map[string]bool),
 		parked:      make(map[int64]*Parked),
 		names:       make(map[int64]string),
 		ownerNode:   make(map[interface{}]string),
@@ -169,7 +204,7 @@ func (s *Sched) Parked(includeHeld bool) []*Parked {
 	defer s.mu.Unlock()
 	var ps []*Parked
 	for _, p := range s.parked {
-		if !includeHeld && s.hold[p.Name] {
+		if !includeHeld && (s.hold[p.Name] || s.hold[p.Node+":"+p.Site]) {
 			continue
 		}
 		ps = append(ps, p)
@@ -186,7 +221,8 @@ func (s *Sched) Release(p *Parked) {
 	close(p.ch)
 }
 
-// Hold / Unhold control which goroutines Settle leaves parked.
+// Hold / Unhold control which goroutines Settle leaves parked; the key is a
+// goroutine name or "node:site".
 func (s *Sched) Hold(name string)   { s.mu.Lock(); s.hold[name] = true; s.mu.Unlock() }
 func (s *Sched) Unhold(name string) { s.mu.Lock(); delete(s.hold, name); s.mu.Unlock() }
 
